@@ -315,6 +315,9 @@ func EnumConsts(t types.Type) map[int64]string {
 	sc := n.Obj().Pkg().Scope()
 	for _, name := range sc.Names() {
 		if c, ok := sc.Lookup(name).(*types.Const); ok && types.Identical(c.Type(), t) {
+			if c.Val().Kind() != constant.Int {
+				continue // a named string or float type has no enumeration
+			}
 			if v, ok := constant.Int64Val(c.Val()); ok {
 				out[v] = name
 			}
